@@ -35,9 +35,19 @@ def run(ctx):
         if not feats <= seen:
             chosen.append(s)
             seen |= feats
-    chosen += seqs[:(400 if t else 25)]
+    chosen += seqs[:(300 if t else 25)]
     path = ctx.path("hostile_seqs.jsonl")
     open(path, "w").write("\n".join(chosen) + "\n")
+    # thorough: the pair cover runs against one version setting, the other settings get a sample (every class and
+    # every listed variant still occurs under each of them)
+    spath = ctx.path("hostile_seqs_sample.jsonl")
+    sample, seen1 = [], set()
+    for s in seqs:
+        q = json.loads(s)["seq"]
+        if not set(q) <= seen1:
+            sample.append(s)
+            seen1 |= set(q)
+    open(spath, "w").write("\n".join(sample + seqs[:120]) + "\n")
     binp = ctx.build_proxy_binary()
     total = {"sequences": 0, "events": 0, "canary_checks": 0, "process_restarts": 0}
     classes = {}
@@ -47,7 +57,8 @@ def run(ctx):
         out = ctx.path("hostile_%s.json" % maxv)
         # frequent heartbeats heal (and hide) a stalled backend connection within their interval: the v5 run uses slow ones
         hb = ["-heartbeat", "6s", "-idle", "30s"] if maxv == "v5" else []
-        ctx.drv(["hostile", "-bin", binp, "-in", path, "-out", out, "-maxversion", maxv, "-reps", "3" if t else "2"] + hb, timeout=3000)
+        ctx.drv(["hostile", "-bin", binp, "-in", path if (maxv == "v4" or not t) else spath, "-out", out, "-maxversion", maxv, "-reps", "2"] + hb,
+                timeout=6000)
         r = json.load(open(out))
         for k in total:
             total[k] += r[k]
